@@ -102,6 +102,7 @@ type variantSpec struct {
 	Generate   []string `json:"files_to_generate"`
 	ProtoOrder []string `json:"proto_file_order"`
 	Subset     bool     `json:"subset"`
+	Hostname   string   `json:"hostname,omitempty"` // run in a private UTS namespace with this host name
 }
 
 type result struct {
@@ -213,6 +214,12 @@ func execVariant(c *simrun.Ctx, base *pluginpb.CodeGeneratorRequest, vs *variant
 		cmd.Stdout = &nativeOut
 		cmd.Stderr = &stderr
 	}
+	if vs.Hostname != "" && unshareOK {
+		// private UTS namespace: os.Hostname() in the plugin sees vs.Hostname
+		inner := append([]string{vs.Hostname, cmd.Args[0], cmd.Path}, cmd.Args[1:]...)
+		cmd.Path = "/usr/bin/unshare"
+		cmd.Args = append([]string{"unshare", "-u", "/bin/bash", "-c", `hostname "$0" && exec -a "$1" "$2" "${@:3}"`}, inner...)
+	}
 	done := make(chan error, 1)
 	if err := cmd.Start(); err != nil {
 		c.EngineError = "start child: " + err.Error()
@@ -304,7 +311,12 @@ func baseOf(protoName string) string {
 	return strings.TrimSuffix(b, ".proto") + ".pulsar.go"
 }
 
-var paramPool = []string{"features=protoc+fast", "features=fast", "features=all", "", "features=fast+protoc", "features=protoc", "features=protoc+fast,paths=source_relative", "features=fast,paths=import"}
+var unshareOK = func() bool {
+	out, err := exec.Command("/usr/bin/unshare", "-u", "/bin/bash", "-c", "hostname verifsim-probe && hostname").Output()
+	return err == nil && strings.TrimSpace(string(out)) == "verifsim-probe"
+}()
+
+var paramPool = []string{"features=fast,pool=example.com/rnd/pkg0.Params,pool=example.com/rnd/pkg1.Msg", "pool=example.com/rnd/pkg0.Item,features=protoc+fast", "features=protoc+fast", "features=fast", "features=all", "", "features=fast+protoc", "features=protoc", "features=protoc+fast,paths=source_relative", "features=fast,paths=import"}
 
 func run(c *simrun.Ctx) *simrun.Violation {
 	t := c.T
@@ -408,6 +420,10 @@ func run(c *simrun.Ctx) *simrun.Violation {
 			if d := t.Draw("cwd", 4); d > 0 {
 				vs.Cwd = []string{"", "cwd-a", "cwd-b/deeper/still", "cwd with space"}[d]
 				st.Add("fault_cwd_changed", 1)
+			}
+			if unshareOK && t.Chance("hostname", 1, 4) {
+				vs.Hostname = []string{"buildhost-17", "ci-runner.internal.example"}[t.Draw("hostname-which", 2)]
+				st.Add("fault_hostname_changed", 1)
 			}
 			if a := t.Draw("argv0", 3); a > 0 {
 				vs.Argv0 = []string{"", "/opt/tools/bin/protoc-gen-go-pulsar", "./x"}[a]
